@@ -4,7 +4,7 @@
     Operation [99] is the final drop of the object: its result is what the harness measures
     while dropping ([keys dropped; values dropped; double drops; live tracked objects; live
     heap blocks allocated by the object; poison damage]). *)
-From VF Require Import Base Iter Enc Lru LruStep Slru TwoQ Arc CacheStep Tiny WTiny Sampled TinyStep Sizing Heap HeapStep Fault FaultStep HeapSlruDef HeapSlruStep HeapTwoQDef HeapArcDef HeapWTinyDef HeapCompStep.
+From VF Require Import Base Iter Enc Lru LruStep Slru TwoQ Arc CacheStep Tiny WTiny Sampled TinyStep Sizing Conv Heap HeapStep Fault FaultStep HeapSlruDef HeapSlruStep HeapTwoQDef HeapArcDef HeapWTinyDef HeapCompStep.
 Open Scope Z_scope.
 
 Inductive ustate :=
@@ -120,7 +120,8 @@ Definition ustep (s : ustate) (op : list Z) : option (ustate * list Z * list Z) 
     | UTiny s => lift UTiny (tstep_enc s op)
     | USampled s => lift USampled (samstep_enc s op)
     | UPutRes => putres_step op
-    | UCtor => match ctor_step op with Some out => Some (UCtor, out, [0]) | None => None end
+    | UCtor => match (match op with 142 :: _ => conv_step op | _ => ctor_step op end) with
+               | Some out => Some (UCtor, out, [0]) | None => None end
     | UHeap s => lift UHeap (hstep_enc s op)
     | UFault s => lift UFault (fstep_enc s op)
     | UHSlru s => lift UHSlru (hsstep_enc s op)
